@@ -415,7 +415,47 @@ func (r *pRun) idleNow() bool {
 	if !sd || atomic.LoadInt64(&h.inflight) != 0 {
 		return false
 	}
-	return time.Now().UnixNano()-atomic.LoadInt64(&h.lastAct) >= int64(30*time.Millisecond)
+	// quiet for 30 ms - longer when the machine is so loaded that goroutines of this very process are scheduled late
+	// (a hand-over in progress could then sit unscheduled for that long without being activity)
+	need := int64(30 * time.Millisecond)
+	if g := 8 * schedLag(); g > need {
+		need = g
+	}
+	if need > int64(400*time.Millisecond) {
+		need = int64(400 * time.Millisecond)
+	}
+	return time.Now().UnixNano()-atomic.LoadInt64(&h.lastAct) >= need
+}
+
+// schedLag: how late a goroutine that sleeps 1 ms at a time has recently been woken (worst of the last ~64 wake-ups), in ns.
+var (
+	lagOnce sync.Once
+	lagRing [64]int64
+	lagPos  int64
+)
+
+func schedLag() int64 {
+	lagOnce.Do(func() {
+		go func() {
+			for {
+				t0 := time.Now()
+				time.Sleep(time.Millisecond)
+				late := int64(time.Since(t0)) - int64(time.Millisecond)
+				if late < 0 {
+					late = 0
+				}
+				i := atomic.AddInt64(&lagPos, 1)
+				atomic.StoreInt64(&lagRing[i%64], late)
+			}
+		}()
+	})
+	var worst int64
+	for i := range lagRing {
+		if v := atomic.LoadInt64(&lagRing[i]); v > worst {
+			worst = v
+		}
+	}
+	return worst
 }
 
 // step executes one script step; false means it timed out.
